@@ -238,6 +238,8 @@ class QSim:
 
     def execute(self, source=None):
         from asyncio_taskpool.queue_context import Queue
+        from .hermetic import reset_library_state
+        reset_library_state()
         run = self.run
         self.inject = sorted(([i["h"], i["step"]] for i in run.get("inject", ())), key=lambda x: x[0])
         gc_was = gc.isenabled()
